@@ -61,9 +61,12 @@ INVARIANTS = {
                 'PartMaskRule'],
     'pool': ['PoolMaskedIsDeleted', 'PoolMissingIsUnion', 'BootCommon', 'PartMaskRule'],
     'mean': ['NaNIffNone', 'MeanBounds', 'PlainWhenEqual', 'MissingWeightsIrrelevant', 'PartMaskRule'],
+    'mean2': ['Mean2NaNIffNone', 'SecondCallIndependent'],
     'rescale': ['CommonScaleExists', 'ConnectedShares'],
 }
-ACTIONS = {'compare': ['Parse', 'Misaligned', 'Measure'], 'pool': ['Pool'], 'mean': ['Mean'], 'rescale': ['Rescale']}
+PROPERTIES = {'mean2': ['WeightsFrame']}
+ACTIONS = {'compare': ['Parse', 'Misaligned', 'Measure'], 'pool': ['Pool'], 'mean': ['Mean'],
+           'mean2': ['MeanFirst', 'MeanSecond'], 'rescale': ['Rescale']}
 
 
 def _set(xs):
@@ -72,18 +75,20 @@ def _set(xs):
 
 def cfg(mode, nc, length, *, veccat=None, rots=(0,), shapes='Sh11', methods=(), sigmas='NoSigmas',
         srcs=('free',), freemasks='MasksUpTo1', minkeep=2, wkinds=('none',), wcat='NoW', wecat='NoW',
-        factors=(1,), emitmod=1, emitaligned=1, emit=True, spec=None):
+        factors=(1,), families=('prop',), emitmod=1, emitaligned=1, emit=True, spec=None):
     veccat = veccat or f'VecCat{length}'
     lines = ['CONSTANTS', f'  Mode = "{mode}"', f'  NC = {nc}', f'  LEN = {length}', f'  VecCat <- {veccat}',
              f'  Rots = {_set(rots)}', f'  Shapes <- {shapes}', f'  Methods = {_set(methods)}',
              f'  Sigmas <- {sigmas}', f'  MaskSrcs = {_set(srcs)}', f'  FreeMasks <- {freemasks}',
              f'  MinKeep = {minkeep}', f'  WKinds = {_set(wkinds)}', f'  WCat <- {wcat}', f'  WECat <- {wecat}',
-             f'  Factors = {_set(factors)}', f'  EmitMod = {emitmod}', f'  EmitAligned = {emitaligned}']
+             f'  Factors = {_set(factors)}', f'  Families = {_set(families)}', f'  EmitMod = {emitmod}',
+             f'  EmitAligned = {emitaligned}']
     if spec:
         lines.append(f'SPECIFICATION {spec}')
     else:
         lines += ['INIT Init', 'NEXT Next']
     lines += [f'INVARIANT {i}' for i in INVARIANTS[mode]]
+    lines += [f'PROPERTY {i}' for i in PROPERTIES.get(mode, [])]
     if emit:
         lines.append('INVARIANT Emit')
     lines.append('CHECK_DEADLOCK FALSE')
@@ -95,7 +100,8 @@ def trace_cfg(nc):
     lines = ['CONSTANTS', '  Mode = "compare"', f'  NC = {nc}', f'  LEN = {length}', '  VecCat <- NoSeq',
              '  Rots <- Unused', '  Shapes <- Unused', '  Methods <- Unused', '  Sigmas <- NoSeq',
              '  MaskSrcs <- Unused', '  FreeMasks <- Unused', '  MinKeep = 2', '  WKinds <- Unused',
-             '  WCat <- NoSeq', '  WECat <- NoSeq', '  Factors <- Unused', '  EmitMod = 1', '  EmitAligned = 1',
+             '  WCat <- NoSeq', '  WECat <- NoSeq', '  Factors <- Unused', '  Families <- Unused', '  EmitMod = 1',
+             '  EmitAligned = 1',
              'SPECIFICATION TSpec', 'INVARIANT ErrorIffDiffering', 'INVARIANT MaskedIsDeleted',
              'CHECK_DEADLOCK FALSE']
     return '\n'.join(lines) + '\n'
@@ -640,19 +646,24 @@ def check_mean(rec, variant, nc):
             ob.rdm_descriptors['wts'] = [float(x) for x in W[:, 0]]
             return ob.mean('wts')
         calls.append(('descriptor', by_name))
-        calls.append(('array', lambda ob: ob.mean(W.copy())))
+        calls.append(('array', lambda ob: ob.mean(W)))
     else:
-        calls.append(('array', lambda ob: ob.mean(W.copy())))
+        calls.append(('array', lambda ob: ob.mean(W)))
     n = 0
     for wname, f in calls:
         n += 1
         pre = f'd/mean/weights={wname}' + ('' if wname == 'descriptor' else '/missing' if any_missing else '/complete')
+        W0 = W.copy()
         try:
             res = f(copy.deepcopy(A))
             got = np.asarray(res.dissimilarities, dtype=float)
         except Exception as e:  # noqa: BLE001
             out.append((f'{pre}/raises/{type(e).__name__}', f'RDMs.mean raises: {e!r}', {**case, 'weights': wname}))
             continue
+        if _fp(W) != _fp(W0):
+            out.append((f'd/mean/weights={wname}/argument-modified', 'RDMs.mean changed the weights array it was given',
+                        {**case, 'weights': wname, 'after': W.copy()}))
+            W[:] = W0
         if got.shape != (1, L):
             out.append((f'{pre}/shape', str(got.shape), {**case, 'weights': wname}))
             continue
@@ -666,10 +677,60 @@ def check_mean(rec, variant, nc):
     return n + k, out + vio, 0, any_missing or rec['wk'] != 'none'
 
 
+def _fp(x):
+    """fingerprint of a weights argument (values incl. NaN positions, dtype, shape)"""
+    a = np.asarray(x)
+    return (a.dtype.str, a.shape, a.tobytes())
+
+
+def check_mean2(rec, variant, nc):
+    """a session of two RDMs.mean calls that share ONE weights object: the first stack, then the second;
+    both values from the definition, and the weights object must come out of every call as it went in"""
+    out = []
+    L = len(rec['a'][0])
+    case = {'record': {k: rec[k] for k in ('wk', 'wid', 'w', 'a', 'ma', 'a2', 'ma2')}}
+    A1 = full_rdms(masked(rec['a'], rec['ma']), nc, 'a') if _nc_from_len(L) else plain_rdms(masked(rec['a'], rec['ma']))
+    A2 = full_rdms(masked(rec['a2'], rec['ma2']), nc, 'b') if _nc_from_len(L) else plain_rdms(masked(rec['a2'], rec['ma2']))
+    exp = [np.array([NAN if q == [0, 0] else q[0] / q[1] for q in rec[k]]) for k in ('mean', 'mean2')]
+    Wm = np.array(rec['w'], dtype=float)
+    sessions = []
+    # (name, the shared object, how a call hands it over)
+    sessions.append(('array', Wm.copy(), lambda ob, W: ob.mean(W)))
+
+    def by_name(ob, W):
+        ob.rdm_descriptors['wts'] = W             # the SAME object sits in the descriptors of both stacks
+        return ob.mean('wts')
+    sessions.append(('descriptor-array', Wm.copy(), by_name))
+    if rec['wk'] == 'rdm':
+        sessions.append(('array-1d', Wm[:, 0].copy(), lambda ob, W: ob.mean(W)))
+        sessions.append(('descriptor', [float(x) for x in Wm[:, 0]], by_name))
+    n = 0
+    for wname, W, call in sessions[variant % 2::2] if len(sessions) > 2 else sessions:
+        orig = _fp(W)
+        for step, (ob, e) in enumerate(((A1, exp[0]), (A2, exp[1]))):
+            n += 1
+            pre = f'd/mean/session/weights={wname}/call{step + 1}'
+            try:
+                got = np.asarray(call(ob, W).dissimilarities, dtype=float)[0]
+            except Exception as ex:  # noqa: BLE001
+                out.append((f'{pre}/raises/{type(ex).__name__}', repr(ex), {**case, 'weights': wname}))
+                break
+            if _fp(W) != orig:
+                out.append((f'd/mean/weights={wname}/argument-modified',
+                            'RDMs.mean changed the weights object it was given (the next use of the same weights is '
+                            'no longer the weights the caller chose)', {**case, 'weights': wname, 'after': np.asarray(W)}))
+            if got.shape != e.shape or not np.array_equal(np.isnan(got), np.isnan(e)) \
+                    or not np.allclose(np.nan_to_num(got), np.nan_to_num(e), rtol=1e-12, atol=1e-12):
+                out.append((f'{pre}/value', 'weighted mean in a session that re-uses one weights object differs from '
+                            'sum(w x) / sum(w) with the weights the caller supplied',
+                            {**case, 'weights': wname, 'got': got, 'expected': e}))
+    return n, out, 0, any(rec['ma']) and rec['ma'] != rec['ma2']
+
+
 # ------------------------------------------------------------------------------------------------
 # rescale: post-conditions only
 # ------------------------------------------------------------------------------------------------
-def rescale_postconditions(A, want, conn, case, variant, methods=None, threshold=None):
+def rescale_postconditions(A, want, conn, case, variant, methods=None, threshold=None, limit=20):
     out = []
     n = 0
     R, L = want.shape
@@ -681,9 +742,10 @@ def rescale_postconditions(A, want, conn, case, variant, methods=None, threshold
         pre = f'e/rescale/{meth}'
         try:
             kw = {} if threshold is None else {'threshold': threshold}
-            res = with_timeout(20, rescale, A, meth, **kw)
+            res = with_timeout(limit, rescale, A, meth, **kw)
         except _Timeout:
-            return n, out + [('unsupported', 'rescale did not converge within 20 s', case)]
+            # (documented: "the algorithm may not always converge"; counted, never a verdict)
+            return n - 1, out + [('unsupported', f'rescale did not converge within {limit} s', case)]
         except Exception as e:  # noqa: BLE001
             out.append((f'{pre}/raises/{type(e).__name__}', repr(e), case))
             continue
@@ -698,11 +760,13 @@ def rescale_postconditions(A, want, conn, case, variant, methods=None, threshold
             nz = (~nanpat[r]) & (want[r] != 0)
             ratio = got[r, nz] / want[r, nz]
             zero_ok = np.all(got[r, (~nanpat[r]) & (want[r] == 0)] == 0)
-            if ratio.size and (np.ptp(ratio) > 1e-9 * abs(ratio[0]) or ratio[0] <= 0) or not zero_ok:
-                okc = False
+            if ratio.size and np.ptp(ratio) > 1e-9 * abs(ratio[0]) or not zero_ok or not np.all(np.isfinite(ratio)):
+                okc = 'not-a-constant-multiple'
+            elif ratio.size and not ratio[0] > 0 and okc is True:
+                okc = 'non-positive-constant'
             consts.append(float(ratio[0]) if ratio.size else NAN)
-        if not okc:
-            out.append((f'{pre}/not-a-positive-multiple', 'an output RDM is not one positive constant times its input',
+        if okc is not True:
+            out.append((f'{pre}/' + okc, 'an output RDM is not one POSITIVE constant times its input',
                         {**c, 'ratios': consts}))
             continue
         w = res.rdm_descriptors.get('rescalingWeights')
@@ -723,19 +787,21 @@ def rescale_postconditions(A, want, conn, case, variant, methods=None, threshold
 
 
 def check_resc(rec, variant, nc):
-    case = {'record': {k: rec[k] for k in ('base', 'f', 'src', 'arg', 'a', 'ma', 'conn')}}
+    case = {'record': {k: rec[k] for k in ('fam', 'neg', 'anti', 'base', 'f', 'src', 'arg', 'a', 'ma', 'conn')}}
     rec = dict(rec, t='resc')
+    prop = rec['fam'] == 'prop'
     try:
         A, want = build_stack(rec, 'a', nc)
     except MaskSourceMismatch as e:
         return 1, [(e.key, 'from_partials does not produce the mask of the specification',
                     {**case, 'detail': e.detail})], 0, True
-    n, out = rescale_postconditions(A, want, rec['conn'], case, variant, methods=RESCALE_METHODS,
-                                    threshold=RESCALE_THRESHOLD)
-    return n, out, 0, bool(rec['conn']) and len(rec['a']) >= 2 and any(rec['ma'])
+    # the common scale is demanded of mutually proportional families only; sign and NaN pattern of every family
+    n, out = rescale_postconditions(A, want, rec['conn'] and prop, case, variant, methods=RESCALE_METHODS,
+                                    threshold=RESCALE_THRESHOLD if prop else None, limit=20 if prop else 4)
+    return n, out, 0, (bool(rec['conn']) and len(rec['a']) >= 2 and any(rec['ma'])) or (bool(rec['anti']) and n == 3)
 
 
-CHECKERS = {'cmp': check_cmp, 'pool': check_pool, 'mean': check_mean, 'resc': check_resc}
+CHECKERS = {'cmp': check_cmp, 'pool': check_pool, 'mean': check_mean, 'mean2': check_mean2, 'resc': check_resc}
 
 
 def replay_chunk(args):
@@ -759,6 +825,9 @@ def replay_chunk(args):
         n_eval += n
         n_nontriv += bool(nontriv)
         c = rec.get('cls', rec['t'])
+        if rec['t'] == 'resc':
+            c = 'resc/' + rec['fam'] + ('/anti' if rec['anti'] else '') + ('/neg' if rec['neg'] else '') \
+                + ('' if n == 3 else '/not-converged')
         classes[c] = classes.get(c, 0) + 1
         for key, what, case in out:
             if key == 'degenerate':
